@@ -32,14 +32,14 @@ CLAIMED = {
             "line is exercised with a synthesised row and near-miss mutations. Complete under the stated bound.",
             "Trusted: Python's re for inner /re/ fragments; the reference matcher mc/ref/rulelang.py; bound: alphabet of 6 tokens / 6 words.",
             "DESIGN.md §3 C07"),
-    "C01": ("explicit-state BFS to closure over device states: every (state, desired config) transition through the real _diff_and_patch and cmd_paths, executed on a reference device",
-            "For every rulebook of a grammar covering literals,*,~,*/re/, nesting, %global, %ordered, %rewrite, undo_redo/permanent/"
-            "ignore_changes and '!' rules, on 2-4 vendors, every state of the rulebook's complete config universe is an initial state "
+    "C01": ("explicit-state BFS to closure over device states: every (state, desired config) transition through the real _diff_and_patch and cmd_paths, executed on a reference device; part V: bounded-exhaustive enumeration of label-annotated forests over the rows of 20 shipped vendor logic functions, every removed row must be accounted for by a command",
+            "For every rulebook of a grammar covering literals,*,~,*/re/, nesting, %global (also of two origins), %ordered, %rewrite (child rules, "
+            "blocks with plain children), %ignore_case, undo_redo/permanent/ignore_changes and '!' rules, on 2-4 vendors, every state of the rulebook's complete config universe is an initial state "
             "and every config a deploy event; the reachable set is closed, so chains of any length are covered. Each transition "
             "checks the final device state against an independent expectation, emptiness of the second diff/patch.",
             "Trusted: the reference device and rule-selection models (mc/ref/device.py, mc/ref/rb.py); universes bounded to <=36 (quick) / <=400 (thorough) configs per rulebook.",
             "DESIGN.md §3 C01"),
-    "C02": ("bounded-exhaustive enumeration of (ACL text or merged ACL pair, old, new) through the real compile_acl_text/_diff_and_patch; command paths judged by a reference ACL cover relation, effects by a reference device; generator output with rows in negated form enumerated separately; a violation that only a long-lived compiled ACL shows is reported with the earlier case that makes it appear",
+    "C02": ("bounded-exhaustive enumeration of (ACL text or merged ACL pair, old, new) through the real compile_acl_text/_diff_and_patch (each case also with a filter ACL that passes everything: nothing may change); command paths judged by a reference ACL cover relation, effects by a reference device; generator output with rows in negated form enumerated separately; a violation that only a long-lived compiled ACL shows is reported with the earlier case that makes it appear",
             "Every ACL of a grammar (nesting, *, ~, %global, %cant_delete=0/1, interface default, merged generator ACLs) x all pairs of "
             "small forests over the ACL's row alphabet: every command path must be ACL-covered level by level, uncovered rows of the "
             "device must survive untouched, cant_delete rows must survive.",
